@@ -296,6 +296,21 @@ func Point(what string, idle bool, cond func() bool) {
 	t.Idle = false
 }
 
+// Unmanaged runs f with the scheduling points switched off (harness set-up loops that would
+// otherwise cost hundreds of thousands of points). Only legal while no other thread can interfere,
+// i.e. from the main thread before it has let anything else run concurrently with f's data.
+func Unmanaged(f func()) {
+	s := S
+	if s == nil || s.cur == nil {
+		f()
+		return
+	}
+	cur := s.cur
+	s.cur = nil
+	defer func() { s.cur = cur }()
+	f()
+}
+
 // Aborting reports whether the calling (running) thread is being released in abort mode.
 func Aborting() bool {
 	s := S
